@@ -8,8 +8,10 @@ from .. import canon, gen
 from ..core import call_real
 
 ID = "C11"
-LEAN_MODULE = "CKT.Props.C11Walsh"
+LEAN_MODULE = "CKT.Props.C11Gen"
 THEOREMS = [
+    # the measurement step of the model is the translated source (harness/translate/measure.py -> Generated/Measure.lean)
+    "CKT.C11Gen.measurementInstrs_translated",
     "CKT.C11.mergeLetters_spec", "CKT.C11.go_spec", "CKT.C11.mostGeneral_spec", "CKT.C11.mostGeneral_refuses_empty",
     "CKT.C11.mergeLetters_incompatible", "CKT.C11.maskGo_testBit", "CKT.C11.maskOf_testBit", "CKT.C11.mem_pauliIndices",
     "CKT.C11.checkCollection_sound", "CKT.C11.mkGroup_spec", "CKT.C11.measuredIndices_spec",
@@ -176,6 +178,13 @@ def _table_cases():
         out.append(("measure", {"n": n, "general": gl, "members": [{"l": m, "p": 0} for m in members], "prep": prep, "wrong_width": False,
                                 "locs": None, "ncirc": n, "cregs": [] if k % 3 else [["qpd_measurements", 1]], "always_oracle": True}))
     return out
+
+
+def regenerate():
+    """the rotate-and-measure loop of _append_measurement_circuit, translated on every run"""
+    from ..translate import measure
+    from ..core import REPO, LEAN
+    measure.regenerate(REPO, LEAN)
 
 
 def cases(rng, tier):
